@@ -301,13 +301,13 @@ def walk (cond : BitVec 64 → Bool) (b : Buf) : Nat → Option Nat → Except F
 /-- `SliceIterate(f)` with an `f` that never fails: the slices handed to `f`. -/
 def sliceIterate (b : Buf) : Except Fault (List Bytes) :=
   if isEmpty (w b.offset) (w b.padding) then .ok []
-  else match walk iterCond b (b.offset + 1) (some b.padding) with
+  else match walk iterCond b (b.offset + 2) (some b.padding) with
     | .error f => .error f
     | .ok items => .ok ((items.map (·.2)).filter (fun s => s.length != 0))
 
 /-- `SliceOffsets()` -/
 def sliceOffsets (b : Buf) : Except Fault (List Nat) :=
-  match walk offsetsCond b (b.offset + 1) (some b.padding) with
+  match walk offsetsCond b (b.offset + 2) (some b.padding) with
   | .error f => .error f
   | .ok items => .ok (items.map (·.1))
 
@@ -370,7 +370,7 @@ def rawSlices (d : Bytes) : List Nat → Except Fault Bytes
 
 /-- `sortHelper.sortSmall(start, end)` -/
 def sortSmall (sortFn : SortFn) (less : Bytes → Bytes → Bool) (b : Buf) (start end_ : Nat) : Except Fault Buf :=
-  match walk (fun nx => sortSmallWalkCond nx (w end_)) b (b.offset + 1) (some start) with
+  match walk (fun nx => sortSmallWalkCond nx (w end_)) b (b.offset + 2) (some start) with
   | .error f => .error f
   | .ok items =>
     let sorted := sortFn (fun x y => less x.2 y.2) items
@@ -459,7 +459,7 @@ def sortSliceBetween (sortFn : SortFn) (less : Bytes → Bytes → Bool) (b : Bu
   if sortEmptyRange (w start) (w end_) then .ok b
   else if sortStartZero (w start) then .error .startZero
   else
-    match chunkOffsets b end_ (b.offset + 1) (some start) 0 with
+    match chunkOffsets b end_ (b.offset + 2) (some start) 0 with
     | .error f => .error f
     | .ok offs =>
       match offs.getLast? with
